@@ -66,9 +66,10 @@ const (
 	failBetween
 	failAfterLast
 	failSilentEnd // the runner's stream ends without a done message and without an error (llm/server.go token-repeat abort)
+	failAfterDone // the runner goes away right after its final message: the follow-up Tokenize call of generate fails
 )
 
-var failNames = [...]string{"no-failure", "fail-before-first-fragment", "fail-between-fragments", "fail-after-last-fragment", "silent-end"}
+var failNames = [...]string{"no-failure", "fail-before-first-fragment", "fail-between-fragments", "fail-after-last-fragment", "silent-end", "fail-after-done-message"}
 
 // failClass is the part of a failure point that goes into signatures.
 func failClass(f int) string {
@@ -82,13 +83,14 @@ func failClass(f int) string {
 }
 
 type c17Plan struct {
-	frags   []string
-	fail    int
-	prompt  string
-	format  string
-	stops   []string
-	called  int
-	fragDsc string
+	frags    []string
+	fail     int
+	prompt   string
+	format   string
+	stops    []string
+	called   int
+	fragDsc  string
+	doneSent bool
 }
 
 type c17Res struct {
@@ -416,8 +418,24 @@ func (cw *c17World) completion(ctx context.Context, req llm.CompletionRequest, f
 		return nil
 	}
 	verifsim.Sleep(time.Duration(verifsim.Draw("lat-done", 20)) * time.Millisecond)
+	if p.fail == failAfterDone {
+		// from now on the runner does not answer any more
+		p.doneSent = true
+		verifsim.Fault("runner_fail_after_done")
+	}
 	fn(llm.CompletionResponse{Done: true, DoneReason: c.done, PromptEvalCount: c.pe, EvalCount: c.ec,
 		PromptEvalDuration: 3 * time.Millisecond, EvalDuration: 5 * time.Millisecond})
+	return nil
+}
+
+// tokenizeErr makes the Tokenize call that follows the final message of a failAfterDone case fail.
+func (cw *c17World) tokenizeErr(content string) error {
+	for _, x := range cw.cases {
+		if x.fail == failAfterDone && x.cur != nil && x.cur.doneSent && strings.Contains(content, x.marker()) {
+			verifsim.Probe("c17_fail_after_done")
+			return errors.New("sim: runner went away after its final message")
+		}
+	}
 	return nil
 }
 
@@ -876,6 +894,10 @@ func (cw *c17World) drawCase(id int) *c17Case {
 		}
 	case 2:
 		c.fail = failAfterLast
+	case 4:
+		if d("after-done", 2) == 0 {
+			c.fail = failAfterDone
+		}
 	case 3:
 		// llm/server.go: when the model repeats one token more than 30 times the real
 		// Completion returns ctx.Err(), i.e. nil, without a done message
@@ -1173,6 +1195,7 @@ func runC17(t *testing.T, tape *verifsim.Tape, prop, tier string, keepLog bool) 
 		w := newAPIWorld(t, sim, prop, gpu, []int{0, 0, 2, 1}[d("maxrunners", 4)], []int{0, 1, 4}[d("parallel", 3)], 512)
 		cw := &c17World{apiWorld: w}
 		w.script = cw.completion
+		w.tokenizeErr = cw.tokenizeErr
 		w.addFamily("ta", 1, false, apiTmplToolsA, "toola")
 		w.addFamily("tb", 2, false, apiTmplToolsB, "toolb")
 		w.addFamily("pl", 1, false, apiTmplPlain, "plain")
